@@ -388,3 +388,123 @@ def c05_term(s, rows, strains, nfirst):
 def c05_multi_term(s, c0, cs, per_point_rows, strains, nfirst):
     rows = '[' + '; '.join('[' + '; '.join(zrow_lit(r) for r in rows) + ']' for rows in per_point_rows) + ']'
     return 'mobs_eqb (mobs %s %s %s) %s %s %s' % (zlit(c0), coq_list(cs), coq_list(s), rows, coq_list(strains, zl), nlit(nfirst))
+
+
+# --------------------------------------------------------------------------- real notch approximation laws, tabulated
+class RecordingLaw:
+    """Wraps a real (binned) notch approximation law and records every value it returns, keyed by the (integer) load /
+    load difference of the first assessment point.  The Gallina model is then run with these tables as its law
+    (HCM/Full.v: qtrace), i.e. 'evaluated with the same law'."""
+
+    def __init__(self, law):
+        self._law = law
+        self.tables = {'sig': {}, 'eps': {}, 'dsig': {}, 'deps': {}}
+
+    @property
+    def ramberg_osgood_relation(self):
+        return self._law.ramberg_osgood_relation
+
+    @staticmethod
+    def _key(x):
+        v = float(np.asarray(x, dtype=float).ravel()[0])
+        if v != int(v):
+            raise ValueError('non-integer load %r' % v)
+        return int(v)
+
+    def _rec(self, name, key, out):
+        v = float(np.asarray(out, dtype=float).ravel()[0])
+        old = self.tables[name].get(key)
+        if old is not None and old != v:
+            raise ValueError('law is not a function of the load: %s(%s) = %r and %r' % (name, key, old, v))
+        self.tables[name][key] = v
+        return out
+
+    def stress(self, load, **kw):
+        return self._rec('sig', self._key(load), self._law.stress(load, **kw))
+
+    def strain(self, stress, load):
+        return self._rec('eps', self._key(load), self._law.strain(stress, load))
+
+    def stress_secondary_branch(self, delta_load, **kw):
+        return self._rec('dsig', self._key(delta_load), self._law.stress_secondary_branch(delta_load, **kw))
+
+    def strain_secondary_branch(self, delta_stress, delta_load):
+        return self._rec('deps', self._key(delta_load), self._law.strain_secondary_branch(delta_stress, delta_load))
+
+
+def real_law(kind, max_load, bins=100):
+    import pylife.materiallaws.notch_approximation_law as NL
+    if kind == 'neuber':
+        base = NL.ExtendedNeuber(E=206e3, K=1184.0, n=0.187, K_p=3.5)
+    else:
+        from pylife.materiallaws.notch_approximation_law_seegerbeste import SeegerBeste
+        base = SeegerBeste(E=206e3, K=1184.0, n=0.187, K_p=3.5)
+    return NL.Binned(base, float(max_load), bins)
+
+
+def impl_run_real(s, kind):
+    law = RecordingLaw(real_law(kind, max(abs(x) for x in s)))
+    rows, sv, nf, _ = impl_run(s, law)
+    return rows, sv, nf, law.tables
+
+
+def _w_real(a):
+    return _safe(impl_run_real, a)
+
+
+def _w_real_pair(a):
+    s, kind = a
+    return _safe(lambda: (impl_run_real(s, kind)[:3], impl_run_real([-x for x in s], kind)[:3]), ())
+
+
+def _w_pair(s):
+    return _safe(lambda: (impl_run(s)[:3], impl_run([-x for x in s])[:3]), ())
+
+
+def qtab(t):
+    return '[' + '; '.join('(%s, %s)' % (zlit(k), common.qlit(v)) for k, v in sorted(t.items())) + ']'
+
+
+def qrow_lit(r):
+    q = common.qlit
+    return '(%s, %s, %s, %s, %s, %s, %s, %s, %s, %s, %s)' % (
+        zl(r['loads_min']), zl(r['loads_max']), q(r['S_min']), q(r['S_max']), q(r['epsilon_min']), q(r['epsilon_max']),
+        q(r['epsilon_min_LF']), q(r['epsilon_max_LF']), blit(r['is_closed_hysteresis']), blit(r['is_zero_mean_stress_and_strain']),
+        nlit(r['run_index']))
+
+
+def c05_real_term(s, rows, strains, nfirst, tables):
+    return 'qobs_eqb (1 # 1000000000000) (qobs %s %s %s %s %s) [%s] [%s] %s' % (
+        qtab(tables['sig']), qtab(tables['eps']), qtab(tables['dsig']), qtab(tables['deps']), coq_list(s),
+        '; '.join(qrow_lit(r) for r in rows), '; '.join(common.qlit(v) for v in strains), nlit(nfirst))
+
+
+MIRROR_COLS = [('S_min', 'S_max'), ('epsilon_min', 'epsilon_max'), ('loads_min', 'loads_max')]
+
+
+def mirror_relation(s, a, b, exact=True):
+    """Rows/strains of s (a) against those of -s (b).  Returns None or a description.  The running strain extremes are
+    compared only when no sample is 0 (then no processed load equals previous_load, the proviso of theorem `mirror`)."""
+    (ra, sa, na), (rb, sb, nb) = a, b
+    eq = (lambda x, y: x == y) if exact else (lambda x, y: abs(x - y) <= 1e-9 * (1 + abs(y)))
+    if len(ra) != len(rb):
+        return 'number of recorded hystereses differs under negation'
+    for x, y in zip(ra, rb):
+        for lo, hi in MIRROR_COLS:
+            if not (eq(x[lo], -y[hi]) and eq(x[hi], -y[lo])):
+                return '%s/%s not mirrored' % (lo, hi)
+        for k in ('S_a', 'epsilon_a'):
+            if not eq(x[k], y[k]):
+                return k + ' changes under negation'
+        for k in ('S_m', 'epsilon_m'):
+            if not eq(x[k], -y[k]):
+                return k + ' not mirrored'
+        for k in ('is_closed_hysteresis', 'is_zero_mean_stress_and_strain', 'run_index'):
+            if x[k] != y[k]:
+                return k + ' changes under negation'
+        if 0 not in s:
+            if not (eq(x['epsilon_min_LF'], -y['epsilon_max_LF']) and eq(x['epsilon_max_LF'], -y['epsilon_min_LF'])):
+                return 'running strain extremes not mirrored'
+    if len(sa) != len(sb) or not all(eq(u, -v) for u, v in zip(sa, sb)) or na != nb:
+        return 'strain_values not mirrored'
+    return None
